@@ -516,6 +516,17 @@ def run_rebuild(case):
             rec["written"].append({"recorded": key is not None, "file": (key[1] + 1) if key else 0,
                                    "copy_of_candidate": bool(is_copy),
                                    "length_ok": key is not None and len(b) == trees[key[0]]["files"][key[1]]["size"]})
+        if case.get("txn"):
+            # RebuildTxn.tla's view of the run: the kinds of the entries in listed order, and which "plain" ones are in place
+            rec["txn"] = list(case["txn"])
+            rec["placed"] = []
+            for fi, f in enumerate(trees[0]["files"]):
+                if f.get("txn_role") == "plain":
+                    dp = dest_path(0, f)
+                    if os.path.isfile(dp) and not os.path.islink(dp):
+                        with open(dp, "rb") as fh:
+                            if fh.read() == _orig(trees[0], f):
+                                rec["placed"].append(f["txn_entry"])
         rec["present_after"] = sum(1 for x in rec["files"] if x["after"] not in ("absent", "n/a"))
         # order of the files in the v1 stream of the (first) metafile: indexes into rec["files"]
         rec["stream_order"] = list(range(1, len(trees[0]["files"]) + 1))
